@@ -249,6 +249,8 @@ func workerBin(build string) string {
 type segResult struct {
 	failures []Failure
 	sum      Summary
+	digests  map[uint64]string
+	variant  string
 }
 
 func check(propID, tier string, mode int, from, to uint64) int {
@@ -380,6 +382,31 @@ func check(propID, tier string, mode int, from, to uint64) int {
 				total.Samples = append(total.Samples, s)
 			}
 		}
+	}
+	// cross-variant digests: every index must have the same digest under every variant
+	if len(variants) > 1 {
+		byVar := map[string]map[uint64]string{}
+		for _, r := range results {
+			if byVar[r.variant] == nil {
+				byVar[r.variant] = map[uint64]string{}
+			}
+			for k, d := range r.digests {
+				byVar[r.variant][k] = d
+			}
+		}
+		base := byVar[variants[0].Name]
+		compared := 0
+		for _, v := range variants[1:] {
+			for k, d := range byVar[v.Name] {
+				if bd, ok := base[k]; ok {
+					compared++
+					if bd != d {
+						fails = append(fails, Failure{Prop: propID, Idx: k, Sub: v.Name, API: "cross-variant-digest", Got: d, Want: bd, Note: "results differ between " + variants[0].Name + " and " + v.Name})
+					}
+				}
+			}
+		}
+		total.Hist["event:cross-variant-digests-compared"] += compared
 	}
 	sort.Slice(fails, func(i, j int) bool {
 		if fails[i].Idx != fails[j].Idx {
@@ -536,7 +563,14 @@ func runWorkerSegments(p *Prop, bin, tier string, seed uint64, dir string, k int
 			}
 		}
 		errf.Close()
-		fs, sum := readWorkerOut(base + ".out")
+		fs, sum, digs := readWorkerOut(base + ".out")
+		if res.digests == nil {
+			res.digests = map[uint64]string{}
+		}
+		for k, d := range digs {
+			res.digests[k] = d
+		}
+		res.variant = v.Name
 		res.failures = append(res.failures, fs...)
 		mergeSum(&res.sum, sum)
 		last, finished := readJournal(base + ".journal")
@@ -605,12 +639,13 @@ func readJournal(path string) (last uint64, finished bool) {
 	return
 }
 
-func readWorkerOut(path string) ([]Failure, Summary) {
+func readWorkerOut(path string) ([]Failure, Summary, map[uint64]string) {
 	var fs []Failure
 	var sum Summary
+	digs := map[uint64]string{}
 	f, err := os.Open(path)
 	if err != nil {
-		return nil, sum
+		return nil, sum, digs
 	}
 	defer f.Close()
 	sc := bufio.NewScanner(f)
@@ -628,9 +663,15 @@ func readWorkerOut(path string) ([]Failure, Summary) {
 			if json.Unmarshal([]byte(line[2:]), &s) == nil {
 				sum = s
 			}
+		case strings.HasPrefix(line, "D "):
+			parts := strings.SplitN(line[2:], " ", 2)
+			if len(parts) == 2 {
+				k, _ := strconv.ParseUint(parts[0], 10, 64)
+				digs[k] = parts[1]
+			}
 		}
 	}
-	return fs, sum
+	return fs, sum, digs
 }
 
 func mergeSum(dst *Summary, s Summary) {
